@@ -1,7 +1,9 @@
 -- REGENERATED from src/build/incrementality.go, src/core/build_target.go, src/core/build_label.go by /verif/harness/extract/c07 on every run. Do not edit.
 namespace PlzVerif.Generated.C07
+def depOrderAccessors : List (String × String) := [("BuildTarget.DeclaredDependencies", "sorted"), ("BuildTarget.DeclaredDependenciesStrict", "sorted"), ("BuildTarget.BuildDependencies", "sorted"), ("BuildTarget.ExportedDependencies", "insertion-order")]
 def unprefixedAliases : Bool := false
 def mapRanges : List (String × String × String) := [
+  ("ruleHash", "target.NamedSources", "sorted"),
   ("ruleHash", "target.Provides", "sorted"),
   ("hashMap", "eps", "sorted"),
   ("BuildTarget.DeclaredOutputNames", "target.namedOutputs", "sorted"),
